@@ -1805,6 +1805,109 @@ Proof.
   - inversion Hn; subst. contradiction.
 Qed.
 
+(* two states that differ only in loop_stack / break_stack *)
+Definition sim_loop (s0 sp : cstate) : Prop :=
+  k_code (s_cur sp) = k_code (s_cur s0) /\ s_outer sp = s_outer s0 /\
+  k_kind (s_cur sp) = k_kind (s_cur s0) /\ k_arity (s_cur sp) = k_arity (s_cur s0) /\ k_consts (s_cur sp) = k_consts (s_cur s0) /\
+  k_locals (s_cur sp) = k_locals (s_cur s0) /\ k_upvalues (s_cur sp) = k_upvalues (s_cur s0) /\ k_scope (s_cur sp) = k_scope (s_cur s0) /\
+  k_in_try (s_cur sp) = k_in_try (s_cur s0) /\ k_try_depth (s_cur sp) = k_try_depth (s_cur s0).
+
+Lemma pop_loop_ok T m kl s0 sp sq sr d pos l' lc0 code L' U' E' base pre fs' x :
+  S_postT T m kl sp sq d pos (Some l') code L' U' E' base pre fs' -> noIJ T -> pos = length (k_code (s_cur sp)) ->
+  sim_loop s0 sp -> k_loops (s_cur sp) = x :: k_loops (s_cur s0) -> k_breaks (s_cur sp) = [] :: k_breaks (s_cur s0) ->
+  pop_loop sq = COk (tt, sr) -> SN.lc_exit l' = length (k_code (s_cur sq)) ->
+  S_postT (map IB (filled (SN.lc_exit l') T)) m kl s0 sr d pos lc0 code L' U' E' base pre fs'.
+Proof.
+  intros (Hg & Hw & Hh & HL & HU & HE & HO & Hnl & fs0' & fm' & Hd & Hfs & Hk) HnT Hpos
+         (A1 & A2 & A3 & A4 & A5 & A6 & A7 & A8 & A9 & A10) Hlo Hbr Hpl Hex.
+  destruct (gstep_fields _ _ _ _ _ _ _ _ Hg) as (Hc & Hl & Hsc & Hup & Hb & Hkind & Hit & Htd & Hloops & Har).
+  destruct Hg as (Hcode & _).
+  unfold pop_loop in Hpl. bcur Hpl. rewrite Hb, Hbr in Hpl. cbn [push_holes] in Hpl. rewrite app_nil_r, rev_involutive in Hpl.
+  apply bind_inv in Hpl as (u0 & sq' & Hu & Hpl). destruct u0. unfold upd in Hu. inversion Hu; subst sq'. clear Hu.
+  destruct (patch_holes_raw T (k_code (s_cur sp)) _ sr HnT ltac:(rewrite <- Hpos; exact Hw) Hpl Hcode) as (K1 & K2 & K3).
+  cbn [s_cur s_outer k_code with_loops] in K1, K3. rewrite <- Hex in K1.
+  unfold rest in K2. cbn in K2. injection K2; intros.
+  unfold S_postT. rewrite raw_IB, holes_IB, push_holes_nil, filled_IB.
+  replace (k_upvalues (s_cur sr)) with (k_upvalues (s_cur sq)) by congruence.
+  replace (k_consts (s_cur sr)) with (k_consts (s_cur sq)) by congruence.
+  rewrite K3, <- A2.
+  split. { split; [congruence|]. unfold rest. rewrite Hloops, Hlo, Hb, Hbr in *. cbn [push_holes tl] in *. congruence. }
+  split; [apply wfT_IB|]. split; [reflexivity|]. split; [exact HL|]. split; [exact HU|]. split; [exact HE|]. split; [exact HO|].
+  split; [exact Hnl|]. exists fs0', fm'. split; [exact Hd|]. split; [exact Hfs|]. exact Hk.
+Qed.
+
+Lemma iter_ok l st s1 gi s2 s3 st' U E :
+  set_line l st = COk (tt, s1) -> identifier_constant n_iter s1 = COk (gi, s2) ->
+  emit_op16 OpInvoke gi l s2 = COk (tt, s3) -> emit_byte 0%N l s3 = COk (tt, st') ->
+  urel U (k_upvalues (s_cur st)) -> Erel E (s_outer st) ->
+  E_post st st' [SC.IInvoke SC.MIter 0] U E.
+Proof.
+  intros H1 H2 H3 H4 HU HE. apply set_line_e in H1. unfold identifier_constant in H2.
+  apply make_constant_e in H2 as (more & Hg & Hm & d & Hd & Hc). apply emit_op16_e in H3. apply emit_byte_e in H4.
+  pose proof (emitted_trans _ _ _ _ _ H3 H4) as H34.
+  assert (Hs : step0 st st' (([] ++ []) ++ [opb OpInvoke; N.modulo gi 256; N.div gi 256; 0]%N) (([] ++ more) ++ [])).
+  { eapply step0_trans; [eapply step0_trans; [apply emitted_step; eassumption|apply grow_step; eassumption]|apply emitted_step; exact H34]. }
+  apply (E_post_of_step0 _ _ _ _ _ _ _ Hs); auto.
+  - rewrite app_nil_r. cbn [app]. destruct Hm as [->| ->]; repeat constructor.
+  - intros KS FM He. cbn [app]. apply crel_one. rewrite (emitted_consts _ _ _ H34) in He.
+    pose proof (ext_nth _ _ _ _ He (const_str_nth _ _ _ _ Hd Hc)) as Hn.
+    split; [reflexivity|]. intros r. cbn [app]. unfold dec1, opb. cbn [N_of_opcode opcode_of_N].
+    rewrite u16_split. unfold kstr. rewrite Hn. reflexivity.
+Qed.
+
+Lemma loop_ok i n b : L_goal b -> S_goal (SL.SLoop i n b).
+Proof.
+  intros HLb. unfold S_goal.
+  intros infun top inloop Hsup Hf Hp L d U E fs pos lc code L' U' E' fs' st st' base pre Hn Hc Hpre.
+  cbn [sup] in Hsup. cbn [ScopeDefs5.stmt7] in Hf. cbn [stmt_repr_ok] in Hp.
+  apply andb_prop in Hp as [Hp Hpb]. apply andb_prop in Hp as [Hp Hpn]. apply andb_prop in Hp as [_ Hp0].
+  rewrite ScopeFacts5.nstmt_loop in Hn.
+  destruct (SC.dup_in_scope L i (S d)); [discriminate|].
+  destruct (Nat.eqb (length L) (SC.c_locals_max cf)); [discriminate|].
+  destruct (Nat.eqb (S (length L)) (SC.c_locals_max cf)); [discriminate|].
+  cbv zeta in Hn.
+  set (lv := length L) in *.
+  set (Lh := SC.mkLocal None (Some (S d)) false :: SC.mkLocal (Some i) (Some (S d)) false :: L) in *.
+  set (start := pos + SC.code_size (SN.loop_pre n)) in *.
+  set (posb := start + SC.code_size (SN.loop_head lv 0)) in *.
+  destruct (ScopeDefs5.nblk cf b (S d) Lh U E fs posb (Some (SN.mkLctx start (S d) 0))) as [[[[[c0 La] Ua] Ea] fa]|] eqn:Eb0; [|discriminate].
+  set (szb := SC.code_size c0) in *.
+  set (lc' := SN.mkLctx start (S d) (posb + szb + 3 + 1)) in *.
+  destruct (ScopeDefs5.nblk cf b (S d) Lh U E fs posb (Some lc')) as [[[[[cblock L1] U1] E1] fs1]|] eqn:Eb; [|discriminate].
+  injection Hn; intros; subst code L' U' E' fs'. clear Hn.
+  assert (Hszb : szb = SC.code_size cblock)
+    by exact (szb_eq b _ _ _ _ Lh (S d) U E fs posb (SN.mkLctx start (S d) 0) lc' c0 La Ua Ea fa cblock L1 U1 E1 fs1 Hf eq_refl Eb0 Eb).
+  set (ops := SC.scope_end_ops L1 d) in *.
+  cbn [tr_stmt cstmt] in Hc. rewrite tr_list_eq in Hc.
+  apply bind_inv in Hc as (u0 & s1 & Hbs & Hc). destruct u0.
+  apply bind_inv in Hc as (u0 & s2 & Hdv & Hc). destruct u0.
+  bcur Hc.
+  apply bind_inv in Hc as (u0 & s3 & Hnil & Hc). destruct u0.
+  apply bind_inv in Hc as (u0 & s6 & Hit & Hc). destruct u0.
+  apply bind_inv in Hc as (u0 & s7 & Hms & Hc). destruct u0.
+  apply bind_inv in Hc as (ok & s8 & Hal & Hc).
+  apply bind_inv in Hc as (u0 & s8' & Hok & Hc). destruct u0.
+  apply bind_inv in Hc as (u0 & s8a & Hsl & Hc). destruct u0.
+  apply bind_inv in Hc as (gi & s8b & Hic & Hc).
+  apply bind_inv in Hc as (u0 & s8c & Hinv & Hc). destruct u0.
+  apply bind_inv in Hc as (u0 & s9 & Hb0 & Hc). destruct u0.
+  apply bind_inv in Hc as (u0 & s10 & Hmi & Hc). destruct u0.
+  apply bind_inv in Hc as (u0 & sp & Hpush & Hc). destruct u0.
+  apply bind_inv in Hc as (ls & sp' & Hls & Hc). unfold code_len in Hls. inversion Hls; subst ls sp'. clear Hls.
+  apply bind_inv in Hc as (u0 & sa & Hin & Hc). destruct u0.
+  apply bind_inv in Hc as (u0 & sb & Hsl2 & Hc). destruct u0.
+  apply bind_inv in Hc as (pj & sc & Hj & Hc).
+  apply bind_inv in Hc as (u0 & sd & Hpop1 & Hc). destruct u0.
+  apply bind_inv in Hc as (u0 & se1 & Hbs2 & Hc). destruct u0.
+  apply bind_inv in Hc as (u0 & se2 & Hbb & Hc). destruct u0.
+  apply bind_inv in Hc as (u0 & se & Hes1 & Hc). destruct u0.
+  apply bind_inv in Hc as (u0 & sf & Hel & Hc). destruct u0.
+  apply bind_inv in Hc as (u0 & sg & Hpj & Hc). destruct u0.
+  apply bind_inv in Hc as (u0 & sq & Hpop2 & Hc). destruct u0.
+  apply bind_inv in Hc as (u0 & sr & Hpl & Hes2). destruct u0.
+  admit_placeholder.
+Qed.
+
 Lemma S_all : forall s, S_goal s.
 Proof.
   induction s using ScopeCompN.stmt_nind; unfold S_goal;
@@ -2024,6 +2127,8 @@ Proof.
       eapply S_post_seq; [exact Q1|exact Q2].
   - (* SLam *)
     exact (lam_ok x ps b (L_of_S b H) infun top inloop Hsup Hf Hp L d U E fs pos lc code L' U' E' fs' st st' base pre Hn Hc Hpre).
+  - (* SLoop *)
+    exact (loop_ok i n b (L_of_S b H) infun top inloop Hsup Hf Hp L d U E fs pos lc code L' U' E' fs' st st' base pre Hn Hc Hpre).
   - (* SIf *)
     exact (if_ok a c t e (L_of_S t H) (L_of_S e H0) infun top inloop Hsup Hf Hp L d U E fs pos lc code L' U' E' fs' st st' base pre Hn Hc Hpre).
   - (* SBreak *)
